@@ -3,7 +3,6 @@ use crate::common::*;
 use monero::{Amount, SignedAmount};
 
 fn show_opt<T: std::fmt::Display>(o: Option<T>) -> String { match o { Some(v) => format!("some {}", v), None => "none".into() } }
-fn show_res(r: Result<String, String>) -> String { match r { Ok(v) => format!("val {}", v), Err(_) => "panic".into() } }
 /// Profile-independent observation for the operator / assigning forms. The harness is built with `overflow-checks = true`, so a body
 /// written with a plain `+ - *` (or unary `-`) panics here exactly where `expect` on the checked form does — and WRAPS in a build without
 /// overflow checks. The two are told apart by the panic message: a compiler-inserted overflow check says `attempt to <add|subtract|
@@ -16,6 +15,13 @@ fn show_res_op(r: Result<String, String>) -> String {
     match r { Ok(v) => format!("val {}", v),
         Err(m) if profile_dependent(&m) => format!("MISMATCH the panic is a compiler-inserted overflow check ({}): this operator wraps in a build without overflow-checks", m),
         Err(_) => "panic".into() }
+}
+/// `SignedAmount::abs` is a plain `i64::abs` in the library as it is: its panic at `i64::MIN` IS a compiler-inserted overflow check. The
+/// result line says which kind of panic was seen — `panic(overflow-check)` (profile-dependent: the same call returns `i64::MIN` in a build
+/// without overflow checks) or `panic` (a panic of the library itself, in every profile) — so the model column (`absPlain true`, which
+/// predicts `panic(overflow-check)` at MIN and nowhere else) notices both a wrapped value and a change of the kind of refusal.
+fn show_res_abs(r: Result<String, String>) -> String {
+    match r { Ok(v) => format!("val {}", v), Err(m) if profile_dependent(&m) => "panic(overflow-check)".into(), Err(_) => "panic".into() }
 }
 
 pub fn exec(t: &[&str]) -> Option<String> {
@@ -36,7 +42,10 @@ pub fn exec(t: &[&str]) -> Option<String> {
         ["amt_to_unsigned", a] => Some(show_opt(SignedAmount::from_pico(a.parse().ok()?).to_unsigned().ok().map(|v| v.as_pico()))),
         ["amt_possub", a, b] => Some(show_opt(SignedAmount::from_pico(a.parse().ok()?).positive_sub(SignedAmount::from_pico(b.parse().ok()?)).map(|v| v.as_pico()))),
         // arithmetic of the same impl outside the statement's list (audit 3g): abs (plain `i64::abs`: panics at MIN in this build), checked_abs, signum
-        ["amt_abs", a] => { let a: i64 = a.parse().ok()?; Some(show_res(guarded(move || SignedAmount::from_pico(a).abs().as_pico().to_string()))) }
+        ["amt_abs", a] => { let a: i64 = a.parse().ok()?; Some(show_res_abs(guarded(move || SignedAmount::from_pico(a).abs().as_pico().to_string()))) }
+        // std's `i64::wrapping_abs`: what `i64::abs` (hence `SignedAmount::abs`) computes in a build WITHOUT overflow checks (std documentation of
+        // `abs`: "optimized code will return i64::MIN without a panic"). Not a call of the library: it validates the Lean model `absPlain false`.
+        ["amt_abs_nochk", a] => { let a: i64 = a.parse().ok()?; Some(format!("val {}", a.wrapping_abs())) }
         ["amt_checked_abs", a] => Some(show_opt(SignedAmount::from_pico(a.parse().ok()?).checked_abs().map(|v| v.as_pico()))),
         ["amt_signum", a] => Some(SignedAmount::from_pico(a.parse().ok()?).signum().to_string()),
         _ => None,
@@ -157,18 +166,86 @@ pub fn run(o: &mut Out, tier: &str, seed: u64) {
         let want = if a == i64::MIN { "none".to_string() } else { format!("some {}", (a as i128).abs()) };
         o.direct(r == want, "checked_abs(a) = |a| iff representable", a.to_string(), r, want);
         let r = o.op(format!("amt_abs {}", a), true);
-        let want = if a == i64::MIN { "panic".to_string() } else { format!("val {}", (a as i128).abs()) };
-        o.direct(r == want, "abs(a) = |a| or a panic, never a wrapped value (build with overflow checks)", a.to_string(), r, want);
+        // (in THIS build: overflow checks on) the exact value, or a refusal — never a wrapped value. Which kind of refusal is seen at MIN is
+        // compared with the model by the op line itself and recorded in the notes below.
+        let ok = if a == i64::MIN { r.starts_with("panic") } else { r == format!("val {}", (a as i128).abs()) };
+        o.direct(ok, "abs(a) = |a| or a panic, never a wrapped value (build with overflow checks)", a.to_string(), r, if a == i64::MIN { "panic".into() } else { format!("val {}", (a as i128).abs()) });
+        let r = o.op(format!("amt_abs_nochk {}", a), true);
+        let want = if a == i64::MIN { format!("val {}", a) } else { format!("val {}", (a as i128).abs()) };
+        o.direct(r == want, "i64::wrapping_abs(a) = |a|, and MIN at MIN (what a plain abs returns without overflow checks)", a.to_string(), r, want);
         let r = o.op(format!("amt_signum {}", a), true);
         o.direct(r == (a as i128).signum().to_string(), "signum(a)", a.to_string(), r, (a as i128).signum().to_string());
         o.stat("abs-signum");
     }
-    if false /* pending triage: fires on the unchanged tree, see REPORT.md "SUSPECTED DEFECTS" (outside the statement's list of operations) */ {
-        // `SignedAmount::abs` is `SignedAmount(self.0.abs())`: the panic at i64::MIN is a compiler-inserted overflow check, so in a build
-        // without overflow-checks `SignedAmount::min_value().abs() == SignedAmount::min_value()` — a wrapped (negative) "absolute value".
+    // ---- added on request (review round 2) ---------------------------------------------------------------------------------------
+    // (H) every corner pair, stated explicitly (independent of how the boundary grid above is composed): both operands from
+    // {MIN, MIN+1, -2, -1, 0, 1, 2, MAX-1, MAX} (signed) / {0, 1, 2, 2^63-1, 2^63, 2^63+1, MAX-1, MAX} (unsigned), all five operations, all three
+    // forms — in particular `+=` / `-=` at (MIN, MIN), (MIN, MAX), (MAX, MIN), (MAX, MAX), (MIN, -1), (-1, MIN), (0, MIN)
+    let cs: [i64; 9] = [i64::MIN, i64::MIN + 1, -2, -1, 0, 1, 2, i64::MAX - 1, i64::MAX];
+    let cu: [u64; 8] = [0, 1, 2, (1 << 63) - 1, 1 << 63, (1 << 63) + 1, u64::MAX - 1, u64::MAX];
+    for form in forms { for op in ops {
+        for &a in &cs { for &b in &cs { arith(o, form, "s", op, a as i128, b as i128); o.stat("corner.s"); } }
+        for &a in &cu { for &b in &cu { arith(o, form, "u", op, a as i128, b as i128); o.stat("corner.u"); } }
+    } }
+    // (I) zero divisors and zero dividends: `x / 0`, `x % 0` for x = 0 and x != 0 (must refuse in every form of both types — a zero dividend
+    // does not excuse a zero divisor), and `0 / y`, `0 % y` for every kind of y (must be 0; y = -1 and y = MIN included)
+    let mut zs: Vec<i64> = vec![0, 1, -1, 2, -2, 10, i64::MIN, i64::MIN + 1, i64::MAX, i64::MAX - 1, 1 << 32, -(1 << 32), 1_000_000_000_000];
+    let mut zu: Vec<u64> = vec![0, 1, 2, 10, (1 << 63) - 1, 1 << 63, u64::MAX, u64::MAX - 1, 1 << 32, 1_000_000_000_000];
+    for _ in 0..6 { zs.push(rng.next() as i64); zs.push(rng.u64_boundary() as i64); zu.push(rng.next()); zu.push(rng.u64_boundary()); }
+    for form in forms { for op in ["div", "rem"] {
+        for &x in &zs { arith(o, form, "s", op, x as i128, 0); arith(o, form, "s", op, 0, x as i128); o.stat("zero-divisor-or-dividend.s"); }
+        for &x in &zu { arith(o, form, "u", op, x as i128, 0); arith(o, form, "u", op, 0, x as i128); o.stat("zero-divisor-or-dividend.u"); }
+    } }
+    // the remaining operations with a zero operand on either side (0 * MIN, MIN * 0, 0 - MIN, MIN - 0, ...)
+    for form in forms { for op in ["add", "sub", "mul"] {
+        for &x in &zs { arith(o, form, "s", op, x as i128, 0); arith(o, form, "s", op, 0, x as i128); }
+        for &x in &zu { arith(o, form, "u", op, x as i128, 0); arith(o, form, "u", op, 0, x as i128); }
+    } }
+    // (J) multiplication by every power of two: multiplier 2^k (signed: also -2^k, and MIN = -2^63), amount around the two thresholds
+    // 2^(64-k) and 2^(63-k) (the exact product is around 2^64 resp. 2^63: first unrepresentable value of u64 resp. i64), around the
+    // largest amount whose product still fits, and random amounts of exactly the critical bit length; and the commuted pairs (amount 2^k,
+    // multiplier around the thresholds). A shift in place of the multiplication drops the high bits exactly here.
+    let deltas: [i128; 5] = [-2, -1, 0, 1, 2];
+    for k in 0..=63u32 {
+        let m: u64 = 1u64 << k;
+        let mut amts: Vec<i128> = vec![];
+        for t in [64 - k as i128, 63 - k as i128] { if (0..=64).contains(&t) { for d in deltas { amts.push((1i128 << t) + d); } } }
+        amts.push((u64::MAX / m) as i128); amts.push((u64::MAX / m) as i128 + 1); amts.push((i64::MAX as u64 / m) as i128); amts.push((i64::MAX as u64 / m) as i128 + 1);
+        for _ in 0..2 { let bits = 64 - k; amts.push(((rng.next() >> (64 - bits)) | (1u64 << (bits - 1))) as i128); }   // top bit of the product is bit 63
+        if k > 0 { let bits = 65 - k; if bits <= 64 { amts.push(((rng.next() >> (64 - bits)) | (1u64 << (bits - 1))) as i128); } }   // product needs 65 bits
+        amts.sort(); amts.dedup();
+        for (i, &a) in amts.iter().enumerate() {
+            if a < 0 || a > u64::MAX as i128 { continue; }
+            let form = forms[(i + k as usize) % 3];
+            arith(o, "amt_chk", "u", "mul", a, m as i128); if form != "amt_chk" { arith(o, form, "u", "mul", a, m as i128); }
+            arith(o, forms[(i + k as usize + 1) % 3], "u", "mul", m as i128, a);          // commuted: the amount is the power of two
+            o.stat("pow2-mul.u");
+        }
+        // signed: multiplier ±2^k (k <= 62) and -2^63; amounts ±(2^(63-k) + d), ±(2^(62-k) + d), MAX / 2^k (+1), MIN / 2^k (-1)
+        let sm: Vec<i64> = if k == 63 { vec![i64::MIN] } else { vec![1i64 << k, -(1i64 << k)] };
+        let mut sa: Vec<i128> = vec![];
+        for t in [63 - k as i128, 62 - k as i128] { if (0..=63).contains(&t) { for d in deltas { sa.push((1i128 << t) + d); sa.push(-(1i128 << t) + d); } } }
+        if k < 63 { let p = 1i128 << k; for x in [i64::MAX as i128 / p, i64::MAX as i128 / p + 1, i64::MIN as i128 / p, i64::MIN as i128 / p - 1] { sa.push(x); } }
+        for _ in 0..2 { let bits = 63 - k.min(62); let v = ((rng.next() >> (64 - bits)) | (1u64 << (bits - 1))) as i128; sa.push(v); sa.push(-v); }
+        sa.sort(); sa.dedup();
+        for (i, &a) in sa.iter().enumerate() {
+            if a < i64::MIN as i128 || a > i64::MAX as i128 { continue; }
+            for &mm in &sm {
+                let form = forms[(i + k as usize) % 3];
+                arith(o, "amt_chk", "s", "mul", a, mm as i128); if form != "amt_chk" { arith(o, form, "s", "mul", a, mm as i128); }
+                if i % 2 == 0 { arith(o, forms[(i + k as usize + 1) % 3], "s", "mul", mm as i128, a); }
+                o.stat("pow2-mul.s");
+            }
+        }
+    }
+    o.notes.push("added (round 2): explicit corner pairs (9 signed x 9, 8 unsigned x 8 corners, 5 ops, 3 forms: incl. += / -= at (MIN, MIN)); zero divisors with zero and non-zero dividends and zero dividends with every kind of divisor, all forms of both types; multiplication by every power of two 2^k (signed: ±2^k and MIN) with amounts around 2^(64-k), 2^(63-k), 2^(62-k), the largest fitting amount, random amounts of the critical bit length, and the commuted pairs; abs printed with the KIND of its panic (`panic(overflow-check)` = compiler-inserted) and std's wrapping_abs against the model of a build without overflow checks".to_string());
+    // OBSERVATION (not a check; DESIGN 14.10): what `SignedAmount::abs` does at i64::MIN in this build, read off the panic payload.
+    {
         let r = guarded(|| SignedAmount::from_pico(i64::MIN).abs().as_pico());
-        let dep = matches!(&r, Err(m) if profile_dependent(m));
-        o.direct(!dep, "abs(i64::MIN) refuses in every build profile (the panic is not a compiler-inserted overflow check)", "amt_abs -9223372036854775808".into(), format!("{:?}", r), "a panic that does not depend on overflow-checks, or checked_abs".into());
+        o.notes.push(match &r {
+            Err(m) if profile_dependent(m) => format!("observation: SignedAmount::from_pico(i64::MIN).abs() panics with `{}` — a compiler-inserted overflow check of the plain `i64::abs` (this build has overflow-checks on); in a build without overflow checks (Cargo's default release profile) the same call returns SignedAmount(i64::MIN), a negative value (std: i64::MIN.wrapping_abs() = {}); `abs` is not one of the operations of the property statement; checked_abs(i64::MIN) = {:?}", m, i64::MIN.wrapping_abs(), SignedAmount::from_pico(i64::MIN).checked_abs().map(|v| v.as_pico())),
+            Err(m) => format!("observation: SignedAmount::from_pico(i64::MIN).abs() panics with `{}` — not a compiler-inserted overflow check: it refuses in every build profile", m),
+            Ok(v) => format!("observation: SignedAmount::from_pico(i64::MIN).abs() RETURNS {} in this build", v) });
     }
     o.notes.push(format!("complete grid over {} unsigned x {} signed boundary values x 5 ops x 3 forms, conversions, positive_sub, plus random near-boundary pairs; added: div/rem with uniform dividend x log-uniform divisor and q*b+r dividends, log-uniform operand pairs, random conversions / positive_sub (incl. operands agreeing in one 32-bit half), abs / checked_abs / signum; every arithmetic line is also checked in Rust against the exact i128 result; operator panics that are compiler-inserted overflow checks are reported as MISMATCH (profile-independent observation); every case non-trivial", us.len(), ss.len()));
 }
